@@ -44,9 +44,16 @@ def flush(run, drv, reqs):
             # a coherent TensorDict of provenance leaves must be constructible: this is a failure of the library, not of the harness
             run.oracle_fail("shape_op", {"td": L.spec_sx(spec)}, f"constructing the input tensordict raised {type(e).__name__}: {str(e)[:120]}", "build:raises")
             continue
+        src_before = L.meta_canon(td)
         impl, raw = L.run_impl(td, op, spelling)
         model = parse_sx(ans)
         case = {"op": list(op), "td": L.spec_sx(spec), "spelling": spelling, "locked": lock}
+        if impl[0] != "err" or impl[1] != "timeout":
+            # every shape op is out of place: the SOURCE keeps its batch size, names (own list!), keys, leaves — whatever the outcome
+            src_after = L.meta_canon(td)
+            if src_after != src_before:
+                run.oracle_fail("shape_op", case, f"the source tensordict was modified by the op: {src_after} (before: {src_before})"[:600],
+                                f"{op[0]}:source-modified")
         key = (op[0], json.dumps(op[1:], default=str), L.spec_sx(spec))
         run.case(key, nontrivial=True)
         run.count("op", op[0])
@@ -239,6 +246,25 @@ def main():
             spec = L.gen_tree(rng, bs, named=rng.random() < 0.4)
             one_case(run, reqs, spec, op, "td:grid")
         flush(run, drv, reqs)
+
+    # ---- 3a2. lazy-stack container, ARGUMENT GRID (oracle): every stack dim x every (dim0, dim1) / permutation / dim incl. negative, ranks 2-4
+    # (a defect in one stack-dim branch of _lazy.py needs a specific (rank, stack dim, dims) triple: e.g. rank 4, stack dim 0, transpose(0, 3))
+    import itertools as _it
+    lz_shapes = [(2, 3), (2, 3, 1), (3, 2, 3), (2, 3, 1, 2), (2, 1, 3, 3)] + ([] if quick else [(2, 3, 3, 2), (1, 2, 3), (3, 1, 2, 2)])
+    for shape in lz_shapes:
+        n = len(shape)
+        spec = L.gen_tree(rng, shape, named=rng.random() < 0.6, nested=rng.random() < 0.5, allow_empty=False)
+        ops = [('transpose', a, b) for a, b in _it.product(range(-n, n), repeat=2)]
+        perms = [p for p in _it.permutations(range(n))]
+        if quick and len(perms) > 8:
+            perms = rng.sample(perms, 8)
+        ops += [('permute', tuple(x - n if rng.random() < 0.3 else x for x in p)) for p in perms]
+        ops += [(name, d) for name in ('squeeze', 'unsqueeze', 'unbind') for d in range(-n, n)] + [('unsqueeze', n), ('unsqueeze', -n - 1)]
+        ops += [('split', k, d) for k in (1, 2) for d in range(-n, n)] + [('chunk', 2, d) for d in range(-n, n)]
+        for sd in range(n):
+            for op in ops:
+                run.case(('lazy-grid', shape, sd, str(op)))
+                L.run_container(run, spec, op, 'lazy', rng, False, stack_dim=sd)
 
     # ---- 3b. repeat / repeat_interleave(dim given): model vs implementation vs torch spec
     rep_cases, rep_lines = [], []
